@@ -353,7 +353,7 @@ Section RoundTrip.
     let T := Dir m mt ch in
     wf_treeb T = true -> modes_okb T = true -> benignb isl isf [] T = true ->
     links_sound (fs_init umask) ->
-    exists f', extract pre umask preserve (entries pre repro [] T) = Ok f' /\
+    exists f', extract_prefix pre umask preserve (entries pre repro [] T) = Ok f' /\
       forall p, fs_lookup f' p = expected_impl umask preserve T p.
   Proof.
     intros T Hwf Hmo Hbe Hls0. subst T. simpl in Hwf, Hmo, Hbe.
@@ -382,7 +382,7 @@ Section RoundTrip.
     - intros q r Hr E. symmetry in E. apply app_eq_nil in E as [_ E]. contradiction.
     - intros n p _. apply H2other. discriminate.
     - exists g'. split.
-      + unfold extract, X in *. simpl. fold f0. rewrite Hstep. exact E'.
+      + unfold extract_prefix, X in *. simpl. fold f0. rewrite Hstep. exact E'.
       + intros [|n p].
         * rewrite F' by (intros n p; discriminate). rewrite H2rel.
           unfold expected_impl, md. destruct preserve; reflexivity.
@@ -397,7 +397,7 @@ End RoundTrip.
 (* ---------- top level: any directory tree with benign links ---------- *)
 Theorem roundtrip_impl pre umask preserve repro T :
   is_dir T = true -> wf_treeb T = true -> modes_okb T = true -> benign_tree T = true ->
-  exists f', extract pre umask preserve (entries pre repro [] T) = Ok f' /\
+  exists f', extract_prefix pre umask preserve (entries pre repro [] T) = Ok f' /\
     forall p, fs_lookup f' p = expected_impl umask preserve T p.
 Proof.
   intros Hd Hwf Hmo Hbe. destruct T as [| |m mt ch]; try discriminate.
@@ -408,7 +408,7 @@ Qed.
 (* with PreservePermissions the restored directory is the source tree *)
 Corollary roundtrip_preserve pre umask repro T :
   is_dir T = true -> wf_treeb T = true -> modes_okb T = true -> benign_tree T = true ->
-  exists f', extract pre umask true (entries pre repro [] T) = Ok f' /\
+  exists f', extract_prefix pre umask true (entries pre repro [] T) = Ok f' /\
     forall p, fs_lookup f' p = expected umask true T p.
 Proof.
   intros Hd Hwf Hmo Hbe.
@@ -419,7 +419,7 @@ Qed.
 (* without it, everything below the directory itself is the source tree minus the umask *)
 Corollary roundtrip_umask pre umask repro T :
   is_dir T = true -> wf_treeb T = true -> modes_okb T = true -> benign_tree T = true ->
-  exists f', extract pre umask false (entries pre repro [] T) = Ok f' /\
+  exists f', extract_prefix pre umask false (entries pre repro [] T) = Ok f' /\
     (forall p, p <> [] -> fs_lookup f' p = expected umask false T p) /\
     (exists m, fs_lookup f' [] = Some (NDir m)).
 Proof.
@@ -434,7 +434,7 @@ Qed.
 Corollary roundtrip_sorted pre umask preserve repro T :
   is_dir T = true -> wf_treeb (sort_tree T) = true -> modes_okb (sort_tree T) = true ->
   benign_tree (sort_tree T) = true ->
-  exists f', extract pre umask preserve (tar_entries pre repro T) = Ok f' /\
+  exists f', extract_prefix pre umask preserve (tar_entries pre repro T) = Ok f' /\
     forall p, fs_lookup f' p = expected_impl umask preserve (sort_tree T) p.
 Proof.
   intros Hd. apply roundtrip_impl. destruct T; try discriminate. reflexivity.
@@ -522,20 +522,6 @@ Section Codec.
   Proof.
     simpl. repeat split. intros tarb E. unfold blobof, dir_blob in E. rewrite gunz_gz in E.
     injection E as <-. reflexivity.
-  Qed.
-
-  Theorem unpack_roundtrip pre umask preserve repro T :
-    is_dir T = true -> wf_treeb (sort_tree T) = true -> modes_okb (sort_tree T) = true ->
-    benign_tree (sort_tree T) = true ->
-    exists f', unpk umask preserve (descr pre repro T) (blobof pre repro T) = Ok f' /\
-      forall p, fs_lookup f' p = expected_impl umask preserve (sort_tree T) p.
-  Proof.
-    intros Hd Hwf Hmo Hbe.
-    destruct (roundtrip_sorted pre umask preserve repro T Hd Hwf Hmo Hbe) as (f' & E & L).
-    exists f'. split; [|exact L].
-    unfold unpk, unpack, descr, blobof, dir_descriptor, dir_blob. simpl.
-    rewrite digest_eqb_refl, N.eqb_refl. simpl.
-    rewrite gunz_gz, dec_enc, E, digest_eqb_refl. reflexivity.
   Qed.
 
   Theorem wrong_checksum_rejected umask preserve d blob tarb c :
@@ -713,7 +699,7 @@ Definition root_mode_witness : tree := Dir 448 0 [(b "f", File (b "x") 420 0)].
 Theorem root_mode_refuted :
   exists T umask,
     is_dir T = true /\ wf_treeb T = true /\ modes_okb T = true /\ benign_tree T = true /\
-    exists f', extract [b "d"] umask false (tar_entries [b "d"] true T) = Ok f' /\
+    exists f', extract_prefix [b "d"] umask false (tar_entries [b "d"] true T) = Ok f' /\
       fs_lookup f' [] <> expected umask false T [].
 Proof.
   exists root_mode_witness, 18.
